@@ -225,6 +225,21 @@ def boundary_trees(sizes):
     return out
 
 
+# script-level paths not reachable through the method objects alone: Protowire::parse into an annotated
+# class (parse_method.go readFieldAnnotations / SetProperty), and the raw result read as PHP objects
+WIRE_SCRIPTS = [
+    ("parse-into-class",
+     "<?php\nuse Protowire\\Annotation\\Field;\nclass C14W {\n  #[Field(number: 1, type: 0)]\n  public $id;\n  #[Field(number: 2, type: 2)]\n"
+     "  public $name;\n  #[Field(number: 3, type: 5)]\n  public $f;\n}\n$o = new C14W();\n$o->id = 300;\n$o->name = 'ab';\n$o->f = 7;\n"
+     "$b = Protowire::serialize($o);\n$p = Protowire::parse($b, 'C14W');\necho bin2hex($b), '|', gettype($p), '|', $p->id, '|', $p->name, '|', $p->f;\n",
+     "08ac02120261621d07000000|class|300|ab|7"),
+    ("raw-result-objects",
+     "<?php\n$r = Protowire::parse(Protowire::encodeTag(1, 0) . Protowire::encodeVarint(150) . Protowire::encodeTag(2, 2) . "
+     "Protowire::encodeBytes('xy'));\necho count($r), '|', $r[0]->number, '|', $r[0]->wire_type, '|', $r[0]->value, '|', $r[1]->value;\n",
+     "2|1|0|150|xy"),
+]
+
+
 def gen_chain(rng, o, depth):
     """a deep, narrow tree: depth nested messages/groups (used for the depth limit, up to 70)"""
     fs = [{"t": "varint", "n": 1, "v": rng.choice(U64)}]
@@ -623,6 +638,12 @@ def run(ck, binary, run_impl, replay):
             b = enc_fields(tr)
             scases.append({"k": "wire.script", "tree": script_tree_json(tr), "_bytes": b.hex(), "_kind": "%s:%d" % (kind, n)})
             pcases.append(dict(strip(mk_parse(b, bo)), k="wire.parse.script", _want=script_tree_json(tr)))
+        wsc = [{"k": "script", "extra": {"src": src}} for _, src, _ in WIRE_SCRIPTS]
+        wouts = run_impl(ck, binary, wsc)
+        for (name, src, want), o in zip(WIRE_SCRIPTS, wouts):
+            if o.get("outcome") != "ok" or o.get("out") != want:
+                ck.violation("wire:script:" + name, {"part": NAME, "case": {"k": "script", "extra": {"src": src}}, "impl_out": o,
+                                                     "expected": want, "clause": "script-level Protowire call differs from the expected output"})
         souts = run_impl(ck, binary, [strip(c) for c in pcases] + [strip(c) for c in scases])
         if len(souts) != len(pcases) + len(scases):
             ck.broken.append("harness-run:wire-script")
